@@ -148,7 +148,7 @@ func runC05(r *Run) {
 		r.Branch(f, "eq(recv[a0]"+e+".Weight,recv[a1]"+e+".Weight)", "ties on weight are detected")
 		r.Returns(f, []string{"(recv[a0]" + e + ".Name<recv[a1]" + e + ".Name)", "(recv[a1]" + e + ".Weight.Cmp(recv[a0]" + e + ".Weight)<0)"}, "total order (Weight desc, Name asc): sort.Sort is unstable, so without the tie-break equal weights are ordered by input order")
 	}
-	r.Has("chain/momentum.(*momentumStore).ComputePillarDelegations", "sort.Sort(phi(append(loop,list(new(types.PillarDelegationDetail)))|make([]*types.PillarDelegationDetail)))", "the delegation list handed to the election is sorted by the total order")
+	r.Has("chain/momentum.(*momentumStore).ComputePillarDelegations", "sort.Sort(iter(make([]*types.PillarDelegationDetail)))", "the delegation list handed to the election is sorted by the total order")
 	r.Branch("consensus.generateProducers", "ne(conv:int(a0.Consensus.NodeCount),len(a2))", "a schedule has exactly NodeCount slots or none")
 	r.Has("consensus.generateProducers", "store new(consensus.ProducerEvent).Producer = a2[(iter+1)]", "slot i belongs to producer i of the elected list")
 	gp := "consensus.(*electionManager).generateProducers"
